@@ -50,7 +50,20 @@ func (c *cmpCase) run() (obs string, block []byte) {
 		history := func(f func(s, d []byte)) {
 			for i := 0; i < c.hist; i++ {
 				s := hr.bytes(hr.intn(70000))
-				if hr.intn(2) == 0 {
+				if hr.intn(4) == 0 {
+					// a source too short to be searched (the compressors leave early on these)
+					s = hr.bytes([]int{0, 1, 5, 12, 13, 14, 15, 16}[hr.intn(8)])
+				}
+				if len(src) > 200 && hr.intn(2) == 0 {
+					// a history RELATED to the input: the same bytes shifted, so that the object's table
+					// is full of entries whose hashes are those of the input's sequences at other
+					// positions (stale entries that verify as matches if they are ever consulted)
+					k := 1 + hr.intn(len(src)-1)
+					if hr.intn(2) == 0 {
+						k = 1 + hr.intn(100)
+					}
+					s = append(append([]byte(nil), src[k:]...), src[:k]...)
+				} else if hr.intn(2) == 0 {
 					for j := range s {
 						s[j] = byte('a' + j%(1+hr.intn(9)))
 					}
@@ -71,6 +84,10 @@ func (c *cmpCase) run() (obs string, block []byte) {
 		case c.algo == "fast" && c.ep == 1:
 			var o lz4.Compressor
 			n, err = o.CompressBlock(src, dst)
+		case c.algo == "fast" && c.ep == 4:
+			h := staleHistory(c.stale)
+			fastObj.CompressBlock(h, make([]byte, lz4.CompressBlockBound(len(h))))
+			n, err = fastObj.CompressBlock(src, dst)
 		case c.algo == "fast" && c.ep == 2:
 			history(func(s, d []byte) { fastObj.CompressBlock(s, d) })
 			n, err = fastObj.CompressBlock(src, dst)
@@ -147,6 +164,26 @@ func (c *cmpCase) run() (obs string, block []byte) {
 		return fmt.Sprintf("res=zero oracle_mem=%s oracle_bound=%s", mem, ob), nil
 	}
 	block = append([]byte(nil), dst[:n]...)
+	// determinism (C14): a fresh object, same source, same destination size, gives the same bytes
+	det := "ok"
+	if c.ep != 1 {
+		d2 := make([]byte, c.dstlen)
+		var n2 int
+		var e2 error
+		func() {
+			defer func() { recover() }()
+			if c.algo == "fast" {
+				var o lz4.Compressor
+				n2, e2 = o.CompressBlock(c.src, d2)
+			} else {
+				o := lz4.CompressorHC{Level: lz4.CompressionLevel(c.depth)}
+				n2, e2 = o.CompressBlock(c.src, d2)
+			}
+		}()
+		if e2 != nil || n2 != n || !bytes.Equal(d2[:n2], block) {
+			det = fmt.Sprintf("fail:output-depends-on-the-object's-history(fresh-object-gives-%d-bytes,this-call-%d)", n2, n)
+		}
+	}
 	// round trip through the build's own decoder, destination of exactly the original length
 	rt := "ok"
 	out := make([]byte, len(c.src))
@@ -154,7 +191,7 @@ func (c *cmpCase) run() (obs string, block []byte) {
 	if derr != nil || m != len(c.src) || !bytes.Equal(out[:m], c.src) {
 		rt = fmt.Sprintf("fail:decoded-n=%d-err=%v", m, derr != nil)
 	}
-	return fmt.Sprintf("res=ok n=%d block=%s oracle_mem=%s oracle_bound=%s oracle_rt=%s", n, hx(block), mem, ob, rt), block
+	return fmt.Sprintf("res=ok n=%d block=%s oracle_mem=%s oracle_bound=%s oracle_rt=%s oracle_det=%s", n, hx(block), mem, ob, rt, det), block
 }
 
 func (c *cmpCase) fields(block []byte) string {
@@ -173,6 +210,37 @@ func replayCmp(kind string, f map[string]string) (string, bool) {
 	c.stale, _ = strconv.Atoi(f["stale"])
 	obs, _ := c.run()
 	return obs, true
+}
+
+// staleToken / staleHistory / staleSource: a source beyond 64 KiB in which an 8-byte token occurs
+// twice, first inside a long incompressible region (where the fast compressor's stride is large, so
+// the position is not entered in the table) and again right after a short run of equal bytes (where
+// the stride is 1, so the position is looked up); and a history that leaves exactly the first
+// position's low 16 bits in the token's slot.  A compressor that consults a slot which the current
+// call has not written finds a match there that a fresh compressor cannot find.
+func staleToken(seed int) []byte {
+	t := genData(0, seed+7777, 8)
+	return t
+}
+
+func staleQ0(seed int) int { return 400 + (seed*131)%60000 }
+
+func staleHistory(seed int) []byte {
+	q0 := staleQ0(seed)
+	h := genData(0, seed+1, q0-200)
+	h = append(h, make([]byte, 200)...)
+	h = append(h, staleToken(seed)...)
+	return append(h, genData(0, seed+2, 1000)...)
+}
+
+func staleSource(seed int) []byte {
+	q0 := staleQ0(seed)
+	s := genData(0, seed+3, 65536+q0)
+	s = append(s, staleToken(seed)...)
+	s = append(s, genData(0, seed+4, 3000)...)
+	s = append(s, make([]byte, 200)...)
+	s = append(s, staleToken(seed)...)
+	return append(s, genData(0, seed+5, 1000)...)
 }
 
 var textData []byte
@@ -275,6 +343,7 @@ var hcDepths = []int{0, 1, 2, 3, 17, 512, 1024, 2048, 4096, 8192, 16384, 32768, 
 
 func compCmp(o *out, seed uint64, tier string) {
 	r := newRng(seed, "cmp")
+	defer compCmpBig(o, newRng(seed, "cmpbig"), tier)
 	mult := 1
 	if tier == "thorough" {
 		mult = 12
@@ -364,5 +433,14 @@ func compCmp(o *out, seed uint64, tier string) {
 			d = 512 // unbounded depth on megabyte-scale periodic data is very slow in the extracted model
 		}
 		emit(&cmpCase{src: src, algo: algo, depth: d, dstlen: lz4.CompressBlockBound(n), ep: r.intn(4), hist: r.intn(2), stale: r.intn(1000)}, "large>64K")
+		if i < 3 || tier == "thorough" {
+			sd := r.intn(1000)
+			ss := staleSource(sd)
+			emit(&cmpCase{src: ss, algo: "fast", depth: 0, dstlen: lz4.CompressBlockBound(len(ss)), ep: 4, hist: 0, stale: sd}, "large>64K-stale-slot")
+		}
+		if algo == "fast" {
+			// the same source on an object (or the pool) that has a history
+			emit(&cmpCase{src: src, algo: algo, depth: d, dstlen: lz4.CompressBlockBound(n), ep: 2 + r.intn(2), hist: 1 + r.intn(3), stale: r.intn(1000)}, "large>64K-after-history")
+		}
 	}
 }
